@@ -11,14 +11,20 @@ CASE_START = ("case",)
 MANIFEST = dict(
     text="Lean 4 theorems over code-shaped executable models of WEPDecrypter / SessionKeys (TKIP mixing, CCMP with the "
          "block cipher as a parameter) / WPA2Decrypter / RSNHandshakeCapturer: round trip against reference encryptors "
-         "written from IEEE 802.11 for all payloads, keys, IV/PN and header variants, reject-unless-tag-verifies, "
-         "no out-of-bounds access for any protected body, key learning over handshake histories; tied to the code by "
-         "differential correspondence (frames from an independent C++ encryptor over OpenSSL AES, hostile bodies of every "
-         "small length, ASan/UBSan) and by a spec oracle (the Lean reference encryptor/decapsulator itself).",
-    note="Trusted: Lean kernel + standard axioms; AES/SHA-1/MD5 themselves (OpenSSL / hashlib; the CCMP theorems hold "
-         "for every block function); hand-written models tied by correspondence; generator coverage bounds what the tie sees.",
-    technique="Lean 4 proof (XOR-stream involution, CCM refinement for arbitrary E, fault-explicit safety, invariants "
-              "over handshake histories) + model/impl correspondence + executable spec oracle",
+         "written from IEEE 802.11 for all payloads, keys, IV/PN and header variants (+HTC frames: known finding), "
+         "reject-unless-tag-verifies, no out-of-bounds access for any protected body; the key derivation is the IEEE PRF / "
+         "pairwise key hierarchy / EAPOL-Key MIC for every HMAC (a parameter); handshake capture and key learning for every "
+         "history of the grammar (M1+ [M2+ [M3+ [M4+]]])* with anything interleaved: the entry is the PTK of the last "
+         "completed attempt; the RSNEAPOL / Dot11Beacon parsing used is proved equal to the Wifi wire family's. Tied to the "
+         "code by differential correspondence (frames from an independent C++ encryptor over OpenSSL AES, hostile bodies "
+         "of every small length, malformed EAPOL / beacon streams, ASan/UBSan) and by a spec oracle that re-derives round "
+         "trips, handshake completion and PTKs from the frame bytes with the Lean specification.",
+    note="Trusted: Lean kernel + standard axioms; AES/SHA-1/MD5/PBKDF2 themselves (OpenSSL / hashlib; the CCMP theorems hold "
+         "for every block function, the key-derivation theorems for every keyed hash); hand-written models tied by "
+         "correspondence; generator coverage bounds what the tie sees.",
+    technique="Lean 4 proof (XOR-stream involution, CCM refinement for arbitrary E, fault-explicit safety, PRF / Min-Max "
+              "refinement for arbitrary HMAC, grammar-indexed invariant over handshake histories, model-to-wire-model "
+              "agreement) + model/impl correspondence + executable spec oracle",
     design="DESIGN.md §6 C09")
 
 
@@ -29,7 +35,7 @@ def hx(b):
 # ----------------------------------------------------------------------------- frame construction
 
 def mac_header(subtype, tods, fromds, a1, a2, a3, a4=b"", frag=0, seq=0, qos=0, prot=1, order=0,
-               retry=0, pwr=0, moredata=0, morefrag=0, dur=0):
+               retry=0, pwr=0, moredata=0, morefrag=0, dur=0, htc=bytes(4)):
     fc0 = (2 << 2) | (subtype << 4)
     fc1 = tods | fromds << 1 | morefrag << 2 | retry << 3 | pwr << 4 | moredata << 5 | prot << 6 | order << 7
     h = bytes([fc0, fc1]) + dur.to_bytes(2, "little") + a1 + a2 + a3 + (frag | seq << 4).to_bytes(2, "little")
@@ -37,6 +43,8 @@ def mac_header(subtype, tods, fromds, a1, a2, a3, a4=b"", frag=0, seq=0, qos=0, 
         h += a4
     if subtype & 8:
         h += qos.to_bytes(2, "little")
+        if order:
+            h += htc                    # +HTC: a QoS data frame with the Order bit carries an HT Control field
     return h
 
 
@@ -69,7 +77,7 @@ def rand_addr(rng, pool):
     return rng.choice(pool)
 
 
-def gen_header(rng, pool, bssid, qos_ok=True, force_ds=None):
+def gen_header(rng, pool, bssid, qos_ok=True, force_ds=None, htc_ok=False):
     tods, fromds = force_ds if force_ds is not None else rng.choice([(1, 0), (1, 0), (0, 1), (0, 1), (0, 0), (1, 1)])
     subtype = rng.choice([0, 0, 0, 8, 8, 8, 1, 2, 3] + ([9, 10, 11] if qos_ok else []))
     sta, other = rng.sample([a for a in pool if a != bssid], 2)
@@ -82,11 +90,12 @@ def gen_header(rng, pool, bssid, qos_ok=True, force_ds=None):
     else:
         a1, a2, a3 = bssid, sta, other
     a4 = rng.choice(pool)
-    order = rng.choice([0, 0, 0, 1]) if not (subtype & 8) else 0       # QoS + Order means an HT Control field: not modelled
+    # QoS + Order = +HTC (KF-C09-8: libtins does not know the HT Control field); only where the caller asks for it
+    order = rng.choice([0, 0, 0, 1]) if not (subtype & 8) else (1 if htc_ok and rng.random() < 0.04 else 0)
     h = mac_header(subtype, tods, fromds, a1, a2, a3, a4, frag=rng.choice([0, 0, rng.randrange(16)]),
                    seq=rng.randrange(4096), qos=rng.choice([0, rng.randrange(16), rng.getrandbits(16)]), prot=1,
                    order=order, retry=rng.getrandbits(1), pwr=rng.getrandbits(1), moredata=rng.getrandbits(1),
-                   morefrag=rng.getrandbits(1), dur=rng.getrandbits(16))
+                   morefrag=rng.getrandbits(1), dur=rng.getrandbits(16), htc=rng.choice([bytes(4), rand_bytes(rng, 4)]))
     return h
 
 
@@ -685,6 +694,36 @@ def michael_case(rng, B):
     B.cases.append(render)
 
 
+def htc_case(rng, B):
+    """KF-C09-8, reproduced on every run: +HTC frames (QoS Data with the Order bit, HT Control field behind the QoS
+    control) protected by the independent encryptors as IEEE 802.11 lays them out — HT Control outside the AAD, Order
+    bit masked — next to the same frames without the HT Control field, which libtins decrypts"""
+    bssid, sta, da = [rand_bytes(rng, 6) for _ in range(3)]
+    ptk = rand_bytes(rng, 80)
+    key = rand_bytes(rng, 13)
+    pt = bytes([0xaa, 0xaa, 3, 0, 0, 0, 0x88, 0xb5]) + rand_bytes(rng, rng.randint(1, 40))
+    qos = rng.randrange(16)
+    seq = rng.randrange(4096)
+    plain = mac_header(8, 1, 0, bssid, sta, da, seq=seq, qos=qos)
+    htc = mac_header(8, 1, 0, bssid, sta, da, seq=seq, qos=qos, order=1, htc=rng.choice([bytes(4), rand_bytes(rng, 4)]))
+    pn = rng.getrandbits(48)
+    ic0 = B.want(f"ccmpenc {hx(ptk[32:48])} {hx(plain)} {pn} 0 {hx(pt)}")
+    ic1 = B.want(f"ccmpenc {hx(ptk[32:48])} {hx(htc)} {pn} 0 {hx(pt)}")
+    it = B.want(f"tkipenc {hx(ptk[32:48])} {hx(ptk[56:64])} {hx(sta)} {hx(da)} {hx(sta)} {qos} {pn} 0 {hx(pt)}")
+    iw = B.want(f"wepenc {hx(key)} {hx(rand_bytes(rng, 3))} 0 {hx(pt)}")
+
+    def render(bodies):
+        ops = []
+        for hdr, tag in ((plain, "plain"), (htc, "htc")):
+            ops += ["case", f"ptk {hx(bssid)} {hx(sta)} {hx(ptk)} 1",
+                    f"wpa {hx(hdr + bodies[ic1 if tag == 'htc' else ic0])} @ enc ccmp {hx(ptk[32:48])} {hx(pt)} 1"]
+            ops += ["case", f"ptk {hx(bssid)} {hx(sta)} {hx(ptk)} 0",
+                    f"wpa {hx(hdr + bodies[it])} @ enc tkip {hx(ptk[32:48])} {hx(pt)} 1"]
+            ops += ["case", f"weppw {hx(bssid)} {hx(key)}", f"wep {hx(hdr + bodies[iw])} @ enc wep {hx(key)} {hx(pt)} 1"]
+        return ops
+    B.cases.append(render)
+
+
 def aes_ops(rng, n):
     ops = ["case", "aes 000102030405060708090a0b0c0d0e0f 00112233445566778899aabbccddeeff"]
     for _ in range(n):
@@ -711,6 +750,8 @@ def gen_ops(rng, tier, exe):
         parse_case(rng, B)
     for i in range(2 if quick else 20):
         michael_case(rng, B)
+    for i in range(2 if quick else 20):
+        htc_case(rng, B)
     for i in range(3 if quick else 60):
         tag_case(rng, B)
     regression_case(rng, B)
@@ -759,7 +800,8 @@ def frame_facts(op):
     sub = f[0] >> 4
     tods, fromds = f[1] & 1, (f[1] >> 1) & 1
     hl = 24 + (6 if tods and fromds else 0) + (2 if sub > 4 else 0)
-    return {"subtype": sub, "tods": tods, "fromds": fromds, "bodylen": max(0, len(f) - hl)}
+    return {"subtype": sub, "tods": tods, "fromds": fromds, "bodylen": max(0, len(f) - hl),
+            "htc": bool(f[0] & 0x80 and f[1] & 0x80)}
 
 
 def sig_of(kind, detail, case):
@@ -774,6 +816,7 @@ def sig_of(kind, detail, case):
         sig["clause"] = d[1] if len(d) > 1 else ""
         sig["cipher"] = cipher
         if sig["clause"] == "roundtrip":
+            sig["htc"] = bool(ff.get("htc"))
             sig["qos_cf"] = ff.get("subtype") in (9, 10, 11)
             sig["fromds_only"] = bool(ff.get("fromds") and not ff.get("tods"))
     elif kind == "fault":
@@ -809,31 +852,54 @@ def run(chk):
                        "lengths, TKIP, CCMP; to/from-DS, IBSS, 4-address, QoS yes/no, Data+CF subtypes; payload lengths "
                        "0..2300 incl. every residue mod 16), wrong key / wrong cipher, tampered cipher text, tag, IV/PN and "
                        "header fields, masked header bits, protected bodies of every length 0..65 and random up to 2400, "
-                       "truncated headers; distinct_nontrivial counts distinct (frame, result) pairs")
+                       "truncated headers; handshake histories = random words of the grammar (retransmissions, abandoned "
+                       "attempts sharing replay counters, re-handshakes), two pairs interleaved with beacons and data frames, "
+                       "out-of-grammar orders, wrong PSK, close / equal addresses and nonces; malformed EAPOL-Key frames "
+                       "(lying length fields, truncation, extension, other descriptors) and beacons (cut / overlong elements, "
+                       "missing / repeated SSID, fourth address); +HTC frames; distinct_nontrivial counts distinct (frame, "
+                       "result) pairs")
     chk.assumptions += [
         "AES-128, SHA-1, MD5, PBKDF2 are trusted primitives (OpenSSL in libtins and in the reference encryptor; the Lean AES is "
         "validated against OpenSSL on every run; CCMP theorems hold for every block function)",
-        "QoS data frames with the Order bit (HT Control field) are outside the modelled header variants",
+        "add_ap_data with a second PSK for an SSID already registered keeps the first one (std::map::insert): taken as the API",
+        "key descriptor versions other than 1 and 2 (3 = AES-128-CMAC) are outside the key-derivation specification; libtins "
+        "treats them like version 1 (theorem derive_keys_other_versions)",
         "CCMP in-place write (8 bytes behind the read position) is modelled by the bytes written; the scrambled buffer of a "
         "rejected frame is compared by the correspondence",
         "4-address (WDS) WEP frames: the password is looked up under addr3 as libtins defines it",
         "inner PDU parsers below SNAP are a parameter of the model (instantiated for ARP and unknown ether types)",
     ]
     chk.extra["modelled_not_proved"] = [
-        "Dot11Beacon / RSNEAPOL parsing and RSNEAPOL::serialize (model only, tied by correspondence: learned PTKs and "
-        "handshake serialisations are compared)",
-        "deriveKeys: PTK layout (sorted addresses / nonces, counter byte) and the MIC-of-message-4 check are modelled with "
-        "HMAC as a parameter; equality with the IEEE PRF-512 is validated against hashlib by the oracle, not proved",
-        "AES-128, SHA-1, MD5, HMAC in Lean (driver only)",
+        "the data-frame header parser of the C09 model (parseFrame: Dot11Data / Dot11QoSData fields) is proved to invert the "
+        "header bytes (parse_inverts_header_bytes) but is not proved equal to the wire family's Dot11Data model; RSNEAPOL "
+        "parse / serialize and Dot11Beacon / tagged parameters are (rsneapol_parse_is_wire_model, "
+        "rsneapol_serialize_is_wire_model, beacon_parse_is_wire_model)",
+        "AES-128, SHA-1, MD5, HMAC, PBKDF2 themselves: parameters of every theorem; the Lean AES / SHA-1 / MD5 / HMAC run "
+        "the driver and the oracle only and are validated against OpenSSL / hashlib on every run",
         "in-place aliasing of the CCMP / RC4 writes (modelled by the bytes written)",
+        "+HTC frames under TKIP / WEP: the known finding KF-C09-8 is stated and refuted for CCMP (ccmp_roundtrip_full); for "
+        "TKIP / WEP it is reproduced by the oracle on every run, not stated as a theorem",
     ]
     chk.extra["proved"] = [
         "crc32 = IEEE CRC-32; RC4 = textbook RC4; WEP/TKIP/CCMP decrypt refine the IEEE decapsulation for all inputs; "
         "round trips for all keys/IV/PN/payloads/header variants (CCMP for every block function); reject-unless-tag-verifies; "
         "no fault / no throw for every protected body; TKIP S-box and key mixing = IEEE; capturer completes every "
         "M1 M2+ M3+ M4 history with arbitrary prefix and interleaving; keys_learned",
+        "derive_keys_is_prf512: for every keyed hash H (20-byte output) and every pair of MIC functions SessionKeys(handshake, "
+        "pmk) = PRF-640(PMK, 'Pairwise key expansion', Min/Max(AA,SPA) || Min/Max(ANonce,SNonce)) with numeric Min/Max (also on "
+        "equal prefixes), counter 0..3, prefixes = PRF-512 / PRF-384, accepted iff the Key MIC (HMAC-MD5 v1 / HMAC-SHA1-128 v2, "
+        "MIC field zeroed, 16 octets) verifies; pmk_is_pbkdf2; message_classes_are_ieee",
+        "handshake_complete_all_histories / keys_after_valid_history / keys_are_last_attempt: for every history accepted by "
+        "the grammar (M1+ [M2+ [M3+ [M4+]]])* per pair — retransmissions, abandoned attempts whatever their replay counters, "
+        "re-handshakes — with beacons, data frames, other pairs' handshakes and non-handshake EAPOL frames interleaved, from "
+        "any capturer state: the capturer hands over exactly the completed attempts and the key-table entry is the session "
+        "keys of the last completed attempt that verifies",
+        "rsneapol_parse_is_wire_model, rsneapol_serialize_is_wire_model, beacon_parse_is_wire_model: the parsing models "
+        "under the handshake theorems equal the Wifi wire family's byte-level models on every byte string",
     ]
-    chk.extra["known_finding_theorems"] = {"KF-C09-4": ["tkip_reject_full (def)", "tkip_reject_full_fails", "tkip_reject_partial"]}
+    chk.extra["known_finding_theorems"] = {
+        "KF-C09-4": ["tkip_reject_full (def)", "tkip_reject_full_fails", "tkip_reject_partial"],
+        "KF-C09-8": ["ccmp_roundtrip_full (def)", "ccmp_roundtrip_full_fails", "ccmp_roundtrip_partial"]}
     chk.trusted += ["correspondence harness harness/c09_crypto.cpp, reference encryptors harness/c09_ref.h, generators in checks/C09.py",
                     "translator/gen_c09.py (CRC table, TKIP S-box, guard literals from the source)",
                     "g++ 12 / ASan+UBSan build of the repo's working tree; OpenSSL AES_encrypt"]
